@@ -141,6 +141,8 @@ def run(ctx, rep):
     check_blake2_layout(fx, rep)
     check_blake2_algo(fx, rep)
     check_layouts(fx, rep)
+    check_kzg_decision(fx, rep)
+    check_ecrecover_decision(fx, rep)
     check_mapping(ctx.facts('default'), rep)
     rep.assume('the linked libraries compute the functions their EIPs name; inputs longer than 2^32 bytes are not considered in the formula grids')
 
@@ -1152,3 +1154,157 @@ def layout_inventory(fx, f):
                 if c != '?':
                     out.add(('switch-at', c, tuple(sorted(a[0] for a in b.term.d.get('arms', [])))))
     return sorted(out, key=str)
+
+
+# ------------------------------------------------------------------ R9
+
+def _find_range(sv):
+    """(start, end) of the first constant Range / RangeTo found inside an extracted value"""
+    if not isinstance(sv, tuple):
+        return None
+    if sv and sv[0] == 'agg' and isinstance(sv[1], str) and sv[1].endswith(('::Range', '::RangeTo')):
+        vals = dict(zip(sv[3], sv[4]))
+        a = vals.get('start', K(0))
+        b = vals.get('end')
+        if a[0] == 'k' and b is not None and b[0] == 'k':
+            return int(a[1]), int(b[1])
+        return None
+    for x in sv:
+        if isinstance(x, tuple):
+            r = _find_range(x)
+            if r is not None:
+                return r
+    return None
+
+
+def check_kzg_decision(fx, rep):
+    """R9: EIP-4844 point evaluation as a decision: success exactly when the input is 192 bytes, the
+    versioned hash of commitment[96..144] equals input[..32], and verify_kzg_proof(commitment, z =
+    [32..64], y = [64..96], proof = [144..192]) holds; each failure maps to its own error."""
+    f = fx.fns.get(P + 'kzg_point_evaluation::run')
+    if f is None:
+        rep.undecided('R9-kzg-decision', 'run', 'not found')
+        return
+    rep.fn(f)
+    try:
+        rs = Symx(fx, max_paths=500, snapshot_refs=True).run(f)
+    except Budget:
+        rep.undecided('R9-kzg-decision', 'run', 'path budget', f.where())
+        return
+    problems = []
+    seen = set()
+    for r in rs:
+        facts_ = {}
+        for (sv, lit, _f, _b) in r.lits:
+            t = render(sv)
+            tv = lit_truth(lit)
+            if t.startswith('Ne(len(&arg1), 192)') or t.startswith('Ne(192, len(&arg1))'):
+                facts_['len_bad'] = tv
+            elif t.startswith('Eq(len(&arg1), 192)'):
+                facts_['len_bad'] = not tv
+            elif t.startswith('ne(&kzg_to_versioned_hash('):
+                facts_['hash_bad'] = tv
+            elif t.startswith('eq(&kzg_to_versioned_hash('):
+                facts_['hash_bad'] = not tv
+            elif t.startswith('verify_kzg_proof('):
+                facts_['proof_ok'] = tv
+        ok = r.ret[0] == 'agg' and r.ret[2] == 'Ok'
+        err = render(r.ret) if not ok else None
+        if ok:
+            seen.add('ok')
+            if facts_.get('len_bad') is not False or facts_.get('hash_bad') is not False or facts_.get('proof_ok') is not True:
+                problems.append('succeeds on a path that has not established length 192, matching versioned hash and a verified proof (%s)' % facts_)
+            for e in r.events:
+                short = e[0].split('::')[-1]
+                if short == 'verify_kzg_proof':
+                    got = [_find_range(a) for a in e[1][:4]]
+                    if got != [(96, 144), (32, 64), (64, 96), (144, 192)]:
+                        problems.append('verify_kzg_proof(commitment, z, y, proof) is given input ranges %s, EIP-4844: [96..144], [32..64], [64..96], [144..192]' % got)
+                if short == 'kzg_to_versioned_hash' and _find_range(e[1][0]) != (96, 144):
+                    problems.append('the versioned hash is computed over %s, not the commitment [96..144]' % (_find_range(e[1][0]),))
+        else:
+            for cond, name in ((facts_.get('len_bad') is True, 'BlobInvalidInputLength'), (facts_.get('hash_bad') is True, 'BlobMismatchedVersion'), (facts_.get('proof_ok') is False, 'BlobVerifyKzgProofFailed')):
+                if cond:
+                    seen.add(name)
+                    if name not in err:
+                        problems.append('%s condition answers %s' % (name, err[:60]))
+                    break
+    for need in ('ok', 'BlobInvalidInputLength', 'BlobMismatchedVersion', 'BlobVerifyKzgProofFailed'):
+        if need not in seen:
+            problems.append('no path for %s' % need)
+    h = fx.fns.get(P + 'kzg_point_evaluation::kzg_to_versioned_hash')
+    ver = fx.const_val(P + 'kzg_point_evaluation::VERSIONED_HASH_VERSION_KZG')
+    if ver != 1:
+        problems.append('VERSIONED_HASH_VERSION_KZG is %s, EIP-4844 says 0x01' % ver)
+    if h is not None:
+        rep.fn(h)
+        hs = Symx(fx, max_paths=50).run(h)
+        okh = len(hs) == 1 and 'digest(' in render(hs[0].ret) and any(path == ('[0]',) and v == K(1) for (root, path), v in hs[0].stores.items())
+        if not okh:
+            okh = len(hs) == 1 and 'digest(' in render(hs[0].ret) and 'with {[0]: 1}' in render(hs[0].ret).replace("'", '')
+        if not okh:
+            problems.append('kzg_to_versioned_hash is not sha256(commitment) with byte 0 set to the version: %s' % (render(hs[0].ret)[:80] if hs else '?'))
+    if problems:
+        rep.violation('R9-kzg-decision', 'run', 'KZG point evaluation: ' + problems[0], f.where())
+    else:
+        rep.ok('R9-kzg-decision', 'run', 'success iff len = 192, versioned hash matches, proof verifies; operands in EIP order')
+
+
+# ------------------------------------------------------------------ R10
+
+def check_ecrecover_decision(fx, rep):
+    """R10: ECRECOVER never fails except for gas: an invalid v (bytes 32..63 not zero, byte 63 not 27 /
+    28) and a failed recovery both succeed with EMPTY output and the base cost; otherwise the output is
+    the recovered address.  Operands: ecrecover(sig = [64..128], recid = v - 27, msg = [0..32])."""
+    f = fx.fns.get(P + 'secp256k1::ec_recover_run')
+    if f is None:
+        rep.undecided('R10-ecrecover-decision', 'ec_recover_run', 'not found')
+        return
+    rep.fn(f)
+    try:
+        rs = Symx(fx, max_paths=500, snapshot_refs=True).run(f)
+    except Budget:
+        rep.undecided('R10-ecrecover-decision', 'ec_recover_run', 'path budget', f.where())
+        return
+    problems = []
+    seen = set()
+    for r in rs:
+        lits = [(render(l[0]), l[1]) for l in r.lits]
+        oog = [lit_truth(l) for t, l in lits if 'arg2' in t and t.startswith(('Gt(', 'Lt(', 'Ge(', 'Le('))]
+        if r.ret[0] == 'agg' and r.ret[2] == 'Err':
+            if 'OutOfGas' in render(r.ret) and oog and oog[0] is True:
+                seen.add('oog')
+            else:
+                problems.append('fails with %s on a path other than the gas check' % render(r.ret)[:60])
+            continue
+        if not (r.ret[0] == 'agg' and r.ret[2] == 'Ok' and r.ret[4][0][0] == 'call' and r.ret[4][0][2] and r.ret[4][0][2][0] == K(3000)):
+            problems.append('a successful path does not charge the 3000 base cost: %s' % render(r.ret)[:80])
+            continue
+        out = r.ret[4][0][2][1]
+        calls = [e for e in r.events if e[0].endswith('::ecrecover')]
+        zero_ok = [lit_truth(l) for t, l in lits if t.startswith('all(')]
+        v_ok = [l for t, l in lits if t.endswith('[63]')]
+        valid = bool(zero_ok) and zero_ok[0] is True and bool(v_ok) and v_ok[0][0] == 'eq' and v_ok[0][1] in (27, 28)
+        if calls:
+            seen.add('recover')
+            if not valid:
+                problems.append('recovery runs on a path that has not established v in {27, 28} with zero padding')
+            a = calls[0][1]
+            got = (_find_range(a[0]), render(a[1]).replace(' ', ''), _find_range(a[2]))
+            if got[0] != (64, 128) or got[2] != (0, 32) or not (got[1].startswith('Sub(') and got[1].endswith('[63],27)')):
+                problems.append('ecrecover(sig, recid, msg) is given %s; expected sig = [64..128], recid = byte 63 - 27, msg = [0..32]' % (got,))
+            if 'unwrap_or_default(' not in render(out) or 'ecrecover(' not in render(out):
+                problems.append('the output is not the recovered address or empty: %s' % render(out)[:80])
+        else:
+            seen.add('empty')
+            if valid:
+                problems.append('a valid v answers without running the recovery')
+            if not (out[0] == 'call' and out[1].endswith('Bytes::new') and not out[2]):
+                problems.append('an invalid v does not answer with empty output: %s' % render(out)[:60])
+    for need in ('oog', 'recover', 'empty'):
+        if need not in seen:
+            problems.append('no path for: %s' % need)
+    if problems:
+        rep.violation('R10-ecrecover-decision', 'ec_recover_run', 'ECRECOVER: ' + problems[0], f.where())
+    else:
+        rep.ok('R10-ecrecover-decision', 'ec_recover_run', 'empty output for invalid v / failed recovery, never an error; operands in order')
